@@ -429,6 +429,75 @@ def hardening_events(ctx, quick, idc):
                 ev.append(dict(_jm(p, R), op="Occ", q=list(q), res=sorted(list(t) for t in M.occurrences_in(Q))))
             else:
                 ev.append({"op": "Mixed", "kind": "contains", "q": list(q), "cl": [list(p)], "ms": [_jm(p, R)], "bs": [], "res": Q.contains(M, Perm(p), M)})
+    ev.extend(derivation_events(ctx, quick, rnd))
+    return ev
+
+
+def derive(rnd, x):
+    """(how, y): a pattern object obtained from the object x by one of its own methods; None when the method does not apply."""
+    k = len(x)
+    free = [(a, b) for a in range(k + 1) for b in range(k + 1) if (a, b) not in x.shading]
+    kind = rnd.choice(["shade", "shade", "shade-same-column", "shade2", "reverse", "complement", "inverse", "rotate", "sub", "add_point"])
+    if kind.startswith("shade"):
+        if not free:
+            return None
+        if kind == "shade-same-column":
+            cols = {a for a, _ in x.shading}
+            same = [c for c in free if c[0] in cols]
+            return ("shade, a cell in a column that has a shaded cell", x.shade(rnd.choice(same))) if same else None
+        if kind == "shade2":
+            return "shade, two cells", x.shade(*rnd.sample(free, min(2, len(free))))
+        return "shade", x.shade(rnd.choice(free))
+    if kind in ("reverse", "complement", "inverse"):
+        return kind, getattr(x, kind)()
+    if kind == "rotate":
+        t = rnd.randint(-3, 5)
+        return "rotate(%d)" % t, x.rotate(t)
+    if kind == "sub":
+        if k == 0:
+            return None
+        idx = sorted(rnd.sample(range(k), rnd.randint(1, k)))
+        return "sub_mesh_pattern(%s)" % idx, x.sub_mesh_pattern(idx)
+    if not free or k >= 4:
+        return None
+    return "add_point", x.add_point(rnd.choice(free))
+
+
+def derivation_events(ctx, quick, rnd):
+    """A pattern object is used (searched, compared, hashed), then other pattern objects are obtained from it by its own
+    methods (shade, symmetries, sub-pattern, added point), then all of them - and the original - are searched: each must
+    behave as the pattern its own .pattern / .shading say it is.  Events carry the data read from the object itself."""
+    ev = []
+    for _ in range(160 if quick else 1600):
+        k = rnd.choice([1, 2, 2, 3, 3])
+        p = util.rand_perm(rnd, k)
+        R = [(a, b) for a in range(k + 1) for b in range(k + 1) if rnd.random() < rnd.choice([0.1, 0.3, 0.5])]
+        x = MeshPatt(Perm(p), R)
+        family = [("the original", x)]
+        if rnd.random() < 0.85:                       # used before anything is derived from it
+            Q = Perm(util.rand_perm(rnd, rnd.randint(k, k + 3)))
+            ev.append(dict(_jm(tuple(x.pattern), sorted(x.shading)), op="Occ", q=list(Q), res=sorted(list(t) for t in x.occurrences_in(Q))))
+            sorted([x, MeshPatt(Perm(p), []), x])
+            hash(x)
+        for _ in range(rnd.randint(1, 4)):
+            src_how, src = rnd.choice(family)
+            st, got = util.call(derive, rnd, src)
+            if st == "raise":
+                ctx.violation({"kind": "derived object", "from": _jm(tuple(src.pattern), sorted(src.shading))}, "NoException", "a pattern", got)
+                continue
+            if got is None:
+                continue
+            family.append(("%s of (%s)" % (got[0], src_how), got[1]))
+        order = list(family)
+        rnd.shuffle(order)
+        for how, y in order:
+            Q = Perm(util.rand_perm(rnd, rnd.randint(len(y), min(7, len(y) + 3))))
+            st, got = util.call(lambda: sorted(list(t) for t in y.occurrences_in(Q)))
+            jm = _jm(tuple(y.pattern), sorted(y.shading))
+            if st == "raise":
+                ctx.violation({"kind": "derived object", "how": how, "pattern": jm, "q": list(Q)}, "NoException", "a listing", got)
+            else:
+                ev.append(dict(jm, op="Occ", q=list(Q), res=got, how=how))
     return ev
 
 
